@@ -733,6 +733,20 @@ Qed.
 Lemma valid_abs : forall (t : tree) c, valid c = match abs t c with Some _ => true | None => false end.
 Proof. intros t [| |p]; [reflexivity|reflexivity|apply valid_at]. Qed.
 
+(* Inorder with a consumer that may stop (yield returning false): it is fed, in order, the keys
+   the full Inorder lists, until it stops — for any consumer and any cursor inside the tree *)
+Theorem cinorder_stop : forall (S : Type) (f : S -> T -> S * bool) (s : S) (t : tree) c, wf t c ->
+  exists ys, cinorder_all t c = Ok ys /\
+             cinorder t c f s = Ok (fst (StreeProofsSet.list_until T S f ys s)).
+Proof.
+  intros S f s t c Hwf. destruct c as [| |p].
+  - exists []. split; reflexivity.
+  - exists []. split; reflexivity.
+  - exists (inorder (subtree t p)). split; [apply cinorder_all_eq|].
+    unfold cinorder. rewrite valid_at. unfold inorder_idx. rewrite path_at_last. cbn [bind].
+    rewrite (StreeProofsSet.inorder_until_ok T S f). reflexivity.
+Qed.
+
 (* ------------------------------------------------------------------ invalid and nil cursors, Clone *)
 
 Theorem invalid_identity : forall (t : tree) c m, valid c = false ->
